@@ -253,6 +253,18 @@ func (w *World) CheckLinks(tx *bbolt.Tx, m *Model) error {
 				if fmt.Sprint(iter) != fmt.Sprint(want) && !(len(iter) == 0 && len(want) == 0) {
 					return fmt.Errorf("links %s of %q: IterateLinks %q, model %q", key, id, iter, want)
 				}
+				if !lc.RefCounted && len(want) >= 2 {
+					// one cursor probed for the last element and then for the first
+					cur := w.Links[key].IterateLinks(tx, []byte(id))
+					cur.Seek([]byte(want[len(want)-1]))
+					if !cur.IsValid() || string(cur.Current()) != want[len(want)-1] {
+						return fmt.Errorf("links %s of %q: IterateLinks cursor sought to %q is not on it", key, id, want[len(want)-1])
+					}
+					cur.Seek([]byte(want[0]))
+					if !cur.IsValid() || string(cur.Current()) != want[0] {
+						return fmt.Errorf("links %s of %q: the IterateLinks cursor, after a seek to %q, sought to %q is not on it", key, id, want[len(want)-1], want[0])
+					}
+				}
 				// raw bucket holds exactly the typed ids
 				rawPath := m.Cfg.PathOf(side.store, id, side.field)
 				if cc, isChild := m.childCfg(side.store); isChild {
@@ -289,6 +301,16 @@ func (w *World) CheckLinks(tx *bbolt.Tx, m *Model) error {
 						if got := w.Links[key].IsLinked(tx, []byte(id), []byte(oid)); got != (n > 0) {
 							return fmt.Errorf("link %s IsLinked(%q,%q) = %v, model %v", key, id, oid, got, n > 0)
 						}
+					}
+					// the store's own look-up of the relation (asked through the store the collection is declared on)
+					var related bool
+					if ks, isKid := w.Kids[side.store]; isKid {
+						related = ks.IsEntityRelated(tx, id, side.field, oid)
+					} else {
+						related = w.Stores[side.store].IsEntityRelated(tx, id, side.field, oid)
+					}
+					if related != (n > 0) {
+						return fmt.Errorf("%s.IsEntityRelated(%q, %s, %q) = %v, model %v", side.store, id, side.field, oid, related, n > 0)
 					}
 				}
 			}
